@@ -15,9 +15,11 @@
      d_init ds p    LZMA2Reader::new with preset dictionary p (LZMA2ReaderMT gives every worker
                     the same p);
      adecode        chunks up to the 0x00 control byte; result: data and the bytes after it;
-     l2_decodes u dict p du   the reader model, freshly constructed on source u, returns du, status
-                    0, end marker reached - for every history of destination sizes and every
-                    sufficient number of read() calls;
+     l2_read_result fuel u dict p sizes   LZMA2Reader::new(u, dict, p), then read() calls with the
+                    destination sizes [sizes] (cyclically) until one returns 0 bytes or fails:
+                    Ok (bytes, status, final state), status 0 = end of stream, else the error kind;
+     l2_decodes u dict p du   l2_read_result returns du, status 0, end marker reached - for every
+                    history of destination sizes and every sufficient number of read() calls;
      cut_lzma2      (Mt/Units.v) read_and_dispatch_chunk on the byte stream: the work units, each
                     closed by the 0x00 the coordinator appends. *)
 From LzVerif Require Import Base.Bytes Codec.LzmaEnc Codec.LzmaWriters Codec.Lzma2Dec Codec.Lzma2ExamplesProofs
@@ -57,14 +59,16 @@ Theorem C08_lzma2_reader_sound : forall dict preset input data tail,
 Proof. exact reader_sound. Qed.
 Print Assumptions C08_lzma2_reader_sound.
 
-(* ... and conversely: a read history that reaches the end marker returned what the chunk decoder
-   says (so where the chunk decoder fails, every read history fails) *)
-Theorem C08_lzma2_reader_complete : forall dict preset input sizes fuel s0 data stt s_end,
+(* ... and conversely: a read history that ends with status 0 (a read() returned 0 bytes; every
+   error kind of the reader model is non-zero) has reached the end marker and returned what the chunk
+   decoder says - so where the chunk decoder fails, every read history fails *)
+Theorem C08_lzma2_reader_complete : forall dict preset input sizes fuel s0 data s_end,
   bytes_ok input = true ->
   lzma2_new input dict preset = Ok s0 -> Forall (fun z => 0 < z) sizes ->
-  lzma2_read_all fuel s0 sizes sizes [] = Ok (data, stt, s_end) -> m_end_reached s_end = true ->
-  adecode (l2_wsize dict) (d_init (l2_wsize dict) preset) input = Some (data, m_in s_end) /\ stt = 0.
-Proof. exact reader_complete. Qed.
+  lzma2_read_all fuel s0 sizes sizes [] = Ok (data, 0, s_end) ->
+  adecode (l2_wsize dict) (d_init (l2_wsize dict) preset) input = Some (data, m_in s_end) /\
+  m_end_reached s_end = true.
+Proof. exact reader_complete0. Qed.
 Print Assumptions C08_lzma2_reader_complete.
 
 (* the byte-level cutting of read_and_dispatch_chunk is the chunk-level cutting, each unit closed
@@ -76,17 +80,16 @@ Proof. exact cut_lzma2_units. Qed.
 Print Assumptions C08_lzma2_cut_units.
 
 (* LZMA2ReaderMT, data side.  For every byte stream that the single-threaded reader decodes (some
-   history of read() calls returns [data] and reaches the end marker) - chunks independent or not,
+   history of read() calls returns [data] with status 0) - chunks independent or not,
    with or without preset dictionary: the coordinator cuts it without error, every work unit is
    decoded by a fresh reader (same dict_size, same preset dictionary: worker_thread_logic) to some
    [du] for every history of destination sizes, and the [du] in unit order concatenate to [data].
    With C08_mt_safety (units handed out in order, whatever the schedule) this is the reader clause
    of C08. *)
-Theorem C08_lzma2_mt_reader_data : forall dict preset stream sizes fuel s0 data stt s_end,
-  bytes_ok stream = true ->
-  lzma2_new stream dict preset = Ok s0 -> Forall (fun z => 0 < z) sizes ->
-  lzma2_read_all fuel s0 sizes sizes [] = Ok (data, stt, s_end) -> m_end_reached s_end = true ->
-  stt = 0 /\ cr_end (cut_lzma2 stream) = None /\
+Theorem C08_lzma2_mt_reader_data : forall dict preset stream sizes fuel data s_end,
+  bytes_ok stream = true -> Forall (fun z => 0 < z) sizes ->
+  l2_read_result fuel stream dict preset sizes = Ok (data, 0, s_end) ->
+  cr_end (cut_lzma2 stream) = None /\
   exists datas, Forall2 (fun u du => l2_decodes u dict preset du) (cr_units (cut_lzma2 stream)) datas /\
                 concat datas = data.
 Proof. exact lzma2_mt_reader_data. Qed.
@@ -158,15 +161,12 @@ Example C08_lzma2_mt_reader_instance :
   exists datas, Forall2 (fun u du => l2_decodes u 4096 None du) (cr_units (cut_lzma2 ex_stream)) datas /\
                 concat datas = ex_data.
 Proof.
-  destruct (lzma2_new ex_stream 4096 None) as [s0|e|e|] eqn:Hnew; try (vm_compute in Hnew; discriminate).
-  destruct (lzma2_read_all 20 s0 [3; 1] [3; 1] []) as [[[data stt] s_end]|e|e|] eqn:Hr.
-  2-4: exfalso; revert Hr; vm_compute in Hnew; inversion Hnew; subst s0; vm_compute; discriminate.
-  assert (Hd : data = ex_data /\ m_end_reached s_end = true).
-  { revert Hr. vm_compute in Hnew. inversion Hnew; subst s0. vm_compute. intros H; inversion H. split; reflexivity. }
-  destruct Hd as (-> & Hend).
-  destruct (C08_lzma2_mt_reader_data 4096 None ex_stream [3; 1] 20 s0 ex_data stt s_end eq_refl Hnew
-              ltac:(repeat constructor; lia) Hr Hend) as (_ & _ & H).
-  exact H.
+  destruct (l2_read_result 20 ex_stream 4096 None [3; 1]) as [[[data stt] s_end]|e|e|] eqn:Hr;
+    try (vm_compute in Hr; discriminate).
+  assert (Hd : data = ex_data /\ stt = 0) by (vm_compute in Hr; inversion Hr; split; reflexivity).
+  destruct Hd as (-> & ->).
+  exact (proj2 (C08_lzma2_mt_reader_data 4096 None ex_stream [3; 1] 20 ex_data s_end eq_refl
+                  ltac:(repeat constructor; lia) Hr)).
 Qed.
 
 (* a preset dictionary: the first unit starts with a chunk that does NOT reset the dictionary (the
@@ -191,7 +191,7 @@ Example C08_lzma2_mt_writer_hyps : Forall (mt_unit_written 3 0 2 4096) ex_units.
 Proof.
   assert (H : mt_unit_written 3 0 2 4096 (ex_data, ex_evs, ex_body)).
   { destruct lzma2_roundtrip_hyps as (Hb & Hne & Hw).
-    split; [exact Hb|]. split; [reflexivity|]. split; [exact Hne|]. rewrite Hw. reflexivity. }
+    split; [exact Hb|]. split; [exact Hne|]. rewrite Hw. reflexivity. }
   constructor; [exact H|]. constructor; [exact H|]. constructor.
 Qed.
 
